@@ -77,6 +77,53 @@ let c10_line (line : string) : unit =
      | None -> Printf.printf "R %s %s refused\n" k h)
   | _ -> ()
 
+(* ---- C03 ---- *)
+let rec nat_of_int (n : int) : G.nat = if n <= 0 then G.O else G.S (nat_of_int (n - 1))
+let rec int_of_nat (n : G.nat) : int = match n with G.O -> 0 | G.S m -> 1 + int_of_nat m
+let int_of_z (x : G.z) : int = match x with G.Z0 -> 0 | G.Zpos p -> int_of_pos p | G.Zneg p -> - (int_of_pos p)
+
+let gen_bytes len seed =
+  List.init len (fun i -> n_of_int ((seed * 31 + i * 131 + (i lsr 8) * 7 + (i lsr 16)) land 0xff))
+
+let c03_run () =
+  let pool = ref G.pool_init in
+  let ids : (G.strnode, int) Hashtbl.t = Hashtbl.create 1024 in
+  let words = ref [] in
+  let lineno = ref 0 in
+  let tags = Hashtbl.create 8 in
+  (try while true do
+    let line = input_line stdin in
+    let w = match List.filter (fun x -> x <> "") (String.split_on_char ' ' line) with
+      | ["H"; "-"] -> Some []
+      | ["H"; h] -> Some (List.init (String.length h / 2) (fun i -> n_of_int (int_of_string ("0x" ^ String.sub h (2 * i) 2))))
+      | ["G"; len; seed] -> Some (gen_bytes (int_of_string len) (int_of_string seed))
+      | _ -> None in
+    match w with
+    | None -> ()
+    | Some w ->
+      let ((p', n), tag) = G.c03_intern !pool w in
+      pool := p';
+      Hashtbl.replace tags (match tag with G.IEmpty -> "empty" | G.IReserved -> "reserved" | G.IHit -> "hit"
+                                          | G.IMissCollide -> "miss-collide" | G.IMiss -> "miss") ();
+      let fresh = not (Hashtbl.mem ids n) in
+      if fresh then Hashtbl.replace ids n !lineno;
+      let place = match n with
+        | G.SDynamic i when fresh ->
+          (match G.c03_node_block p' i with
+           | Some b -> Printf.sprintf "pool=%d off=%d" (int_of_nat b.G.b_pool) (int_of_z b.G.b_off)
+           | None -> "pool=? off=?")
+        | _ -> "pool=- off=-" in
+      let cst = if List.length w <= 64 then (match n with G.SDynamic _ -> "0" | _ -> "1") else "-" in
+      Printf.printf "id=%d new=%d %s const=%s\n" (Hashtbl.find ids n) (if fresh then 1 else 0) place cst;
+      words := (w, n) :: !words;
+      incr lineno
+  done with End_of_file -> ());
+  let rb = Buffer.create 64 in
+  List.iter (fun (w, n) ->
+    Buffer.add_char rb (match G.c03_chars !pool n with Some c when c = w -> '1' | _ -> '0')) (List.rev !words);
+  Printf.printf "readback=%s\n" (if Buffer.length rb = 0 then "-" else Buffer.contents rb);
+  Printf.printf "tags=%s\n" (String.concat "," (List.sort compare (Hashtbl.fold (fun k () a -> k :: a) tags [])))
+
 let iter_lines f =
   try while true do f (input_line stdin) done with End_of_file -> ()
 
@@ -89,4 +136,5 @@ let () =
       Printf.printf "%s cat=%s full=%s sinks=%s views=%s\n" (str name) (str cat) (join acc) (join sinks) (join views))
       G.c06_rows
   | [| _; "c10" |] -> iter_lines c10_line
+  | [| _; "c03" |] -> c03_run ()
   | _ -> prerr_endline "usage: gen_driver <mode>"; exit 2
